@@ -2,6 +2,10 @@
   Helper definitions and lemmas for C06 (grammar extraction).
 -/
 import TT.Spec.Grammar
+import TT.Lemmas.Sort
+import TT.Lemmas.Nav
+import TT.Lemmas.WF
+import TT.Props.C16
 namespace TT.Lemmas.Extract
 open TT TT.Tree TT.Spec
 
@@ -11,5 +15,536 @@ def Grammar.total (g : Grammar) : Nat := (g.entries.map fun e => e.2.2.2).sum
 def Lexicon.total (l : Lexicon) : Nat := (l.flatMap fun (_, tags) => tags.map (·.2)).sum
 /-- is the event a rule occurrence (as opposed to a lexicon occurrence) -/
 def isRule : Event → Bool | .rule .. => true | .lex .. => false
+
+/-! ### association lists -/
+
+section AList
+variable {κ ν : Type} [DecidableEq κ]
+
+theorem get?_upsert_self (k : κ) (f : Option ν → ν) : ∀ l : AList κ ν,
+    AList.get? k (AList.upsert k f l) = some (f (AList.get? k l))
+  | [] => by simp [AList.upsert, AList.get?]
+  | (a, v) :: r => by
+    by_cases h : a = k
+    · simp [AList.upsert, AList.get?, h]
+    · have ih := get?_upsert_self k f r
+      simp only [AList.get?] at ih
+      simp [AList.upsert, AList.get?, h, ih]
+
+theorem get?_upsert_other (k k' : κ) (f : Option ν → ν) (hk : k' ≠ k) : ∀ l : AList κ ν,
+    AList.get? k' (AList.upsert k f l) = AList.get? k' l
+  | [] => by simp [AList.upsert, AList.get?, Ne.symm hk]
+  | (a, v) :: r => by
+    by_cases h : a = k
+    · subst h
+      simp [AList.upsert, AList.get?, Ne.symm hk]
+    · have ih := get?_upsert_other k k' f hk r
+      simp only [AList.get?] at ih
+      by_cases h' : a = k'
+      · subst h'
+        simp [AList.upsert, AList.get?, h]
+      · simp [AList.upsert, AList.get?, h, h', ih]
+
+/-- a weight on the values that grows by `n` at the updated key makes the total weight grow by `n` -/
+theorem upsert_sum (w : ν → Nat) (k : κ) (f : Option ν → ν) (n : Nat)
+    (h : ∀ o, w (f o) = (o.map w).getD 0 + n) : ∀ l : AList κ ν,
+    ((AList.upsert k f l).map fun p => w p.2).sum = (l.map fun p => w p.2).sum + n
+  | [] => by simp [AList.upsert, h]
+  | (a, v) :: r => by
+    by_cases h' : a = k
+    · simp [AList.upsert, h', h]; omega
+    · have ih := upsert_sum w k f n h r
+      simp [AList.upsert, h', ih]; omega
+
+end AList
+
+theorem get?_nil {κ ν : Type} [DecidableEq κ] (k : κ) : AList.get? k ([] : AList κ ν) = none := rfl
+
+/-! ### totals as nested weights -/
+
+def vSum (vs : AList VertKey Nat) : Nat := (vs.map fun p => p.2).sum
+def lSum (ls : AList Lin (AList VertKey Nat)) : Nat := (ls.map fun p => vSum p.2).sum
+
+theorem sum_flatMap_nat {α β} (l : List α) (f : α → List β) (w : β → Nat) :
+    ((l.flatMap f).map w).sum = (l.map fun a => ((f a).map w).sum).sum := by
+  induction l with
+  | nil => rfl
+  | cons a l ih => simp [List.flatMap_cons, ih]
+
+theorem Grammar.total_eq (g : Grammar) : Grammar.total g = (g.map fun p => lSum p.2).sum := by
+  unfold Grammar.total Grammar.entries
+  rw [sum_flatMap_nat]
+  congr 1
+  apply List.map_congr_left
+  rintro ⟨f, ls⟩ _
+  simp only [lSum]
+  rw [sum_flatMap_nat]
+  congr 1
+  apply List.map_congr_left
+  rintro ⟨l, vs⟩ _
+  simp [vSum, List.map_map, Function.comp_def]
+
+theorem Lexicon.total_eq (x : Lexicon) :
+    Lexicon.total x = (x.map fun p => (p.2.map fun q => q.2).sum).sum := by
+  unfold Lexicon.total
+  have := sum_flatMap_nat x (fun p => p.2.map (·.2)) id
+  simpa using this
+
+theorem grammar_add_total (g : Grammar) (f : Func) (l : Lin) (v : VertKey) (n : Nat) :
+    Grammar.total (g.add f l v n) = Grammar.total g + n := by
+  rw [Grammar.total_eq, Grammar.total_eq]
+  unfold Grammar.add
+  refine upsert_sum lSum f _ n ?_ g
+  intro o
+  unfold lSum
+  rw [upsert_sum vSum l _ n]
+  · cases o <;> simp
+  · intro o2
+    unfold vSum
+    refine (upsert_sum id v _ n ?_ _).trans ?_
+    · intro o3; cases o3 <;> simp
+    · cases o2 <;> simp
+
+theorem lexicon_add_total (x : Lexicon) (w t : Str) (n : Nat) :
+    Lexicon.total (x.add w t n) = Lexicon.total x + n := by
+  rw [Lexicon.total_eq, Lexicon.total_eq]
+  unfold Lexicon.add
+  refine upsert_sum (fun tags => (tags.map fun q => q.2).sum) w _ n ?_ x
+  intro o
+  refine (upsert_sum id t _ n ?_ _).trans ?_
+  · intro o2; cases o2 <;> simp
+  · cases o <;> simp
+
+/-! ### events -/
+
+theorem eventsK_eq (ctx : List Str) : ∀ ks : List Tree,
+    eventsK ctx ks = ks.map fun t => (leftmost t, events ctx t)
+  | [] => by simp [eventsK]
+  | t :: ts => by simp [eventsK, eventsK_eq ctx ts]
+
+theorem events_leaf (ctx : List Str) (n : Nat) (f : Fields) :
+    events ctx (leaf n f) = [.lex (f.word.getD []) f.label] := by
+  simp [events]
+
+theorem events_node (ctx : List Str) (f : Fields) (ks : List Tree) (h : ks ≠ []) :
+    events ctx (node f ks) =
+      .rule (funcOf (node f ks)) (linOf (node f ks)) (vertLabel (node f ks) :: ctx) ::
+        (children (node f ks)).flatMap (events (vertLabel (node f ks) :: ctx)) := by
+  have : ks.isEmpty = false := by cases ks <;> simp_all
+  simp only [events, this, eventsK_eq, flattenSorted, children, kids, List.flatMap]
+  rw [sortBy_map_keyed leftmost (events (vertLabel (node f ks) :: ctx)) ks]
+  rfl
+
+/-- counting events with a predicate, children in any order -/
+theorem countP_events_node (p : Event → Bool) (ctx : List Str) (f : Fields) (ks : List Tree) (h : ks ≠ []) :
+    (events ctx (node f ks)).countP p =
+      (if p (.rule (funcOf (node f ks)) (linOf (node f ks)) (vertLabel (node f ks) :: ctx)) then 1 else 0) +
+        (ks.map fun k => (events (vertLabel (node f ks) :: ctx) k).countP p).sum := by
+  rw [events_node ctx f ks h, List.countP_cons]
+  have hp : ((children (node f ks)).flatMap (events (vertLabel (node f ks) :: ctx))).Perm
+      (ks.flatMap (events (vertLabel (node f ks) :: ctx))) :=
+    (sortBy_perm leftmost ks).flatMap_right _
+  rw [hp.countP_eq, List.countP_flatMap]
+  simp only [Function.comp_def]
+  omega
+
+theorem events_rules_countP (t : Tree) : ∀ ctx : List Str, t.noEmpty = true →
+    (events ctx t).countP isRule = (t.subtrees.countP fun s => !s.isLeaf) := by
+  induction t using TT.Lemmas.WF.tree_ind with
+  | hl n f => intro ctx _; simp [events_leaf, subtrees, isRule, isLeaf]
+  | hn f ks ih =>
+    intro ctx h
+    obtain ⟨hne, hk⟩ := (TT.Lemmas.WF.noEmpty_node f ks).1 h
+    rw [countP_events_node _ ctx f ks hne]
+    have hl : (node f ks).isLeaf = false := rfl
+    simp only [subtrees, TT.Lemmas.Nav.subtreesL_eq, List.countP_cons, List.countP_flatMap, isRule, hl,
+      Function.comp_def]
+    have : (ks.map fun k => (events (vertLabel (node f ks) :: ctx) k).countP isRule) =
+        ks.map fun k => k.subtrees.countP fun s => !s.isLeaf :=
+      List.map_congr_left fun k hkm => ih k hkm _ (hk k hkm)
+    rw [this]
+    simp
+    omega
+
+theorem events_lex_countP (t : Tree) : ∀ ctx : List Str, t.noEmpty = true →
+    (events ctx t).countP (fun e => !isRule e) = t.leafNums.length := by
+  induction t using TT.Lemmas.WF.tree_ind with
+  | hl n f => intro ctx _; simp [events_leaf, TT.Lemmas.WF.leafNums_leaf, isRule]
+  | hn f ks ih =>
+    intro ctx h
+    obtain ⟨hne, hk⟩ := (TT.Lemmas.WF.noEmpty_node f ks).1 h
+    rw [countP_events_node _ ctx f ks hne, TT.Lemmas.WF.leafNums_node, List.length_flatMap]
+    have : (ks.map fun k => (events (vertLabel (node f ks) :: ctx) k).countP fun e => !isRule e) =
+        ks.map fun k => k.leafNums.length :=
+      List.map_congr_left fun k hkm => ih k hkm _ (hk k hkm)
+    rw [this]
+    simp [isRule]
+
+/-! ### folding events into the grammar -/
+
+theorem foldl_applyEvent_total (evs : List Event) : ∀ st : Grammar × Lexicon,
+    Grammar.total (evs.foldl applyEvent st).1 = Grammar.total st.1 + evs.countP isRule ∧
+    Lexicon.total (evs.foldl applyEvent st).2 = Lexicon.total st.2 + evs.countP (fun e => !isRule e) := by
+  induction evs with
+  | nil => intro st; simp
+  | cons e evs ih =>
+    intro st
+    simp only [List.foldl_cons]
+    obtain ⟨h1, h2⟩ := ih (applyEvent st e)
+    rw [h1, h2]
+    cases e with
+    | rule f l v =>
+      exact ⟨by simp [applyEvent, isRule, grammar_add_total, List.countP_cons]; omega,
+        by simp [applyEvent, isRule]⟩
+    | lex w t =>
+      exact ⟨by simp [applyEvent, isRule],
+        by simp [applyEvent, isRule, lexicon_add_total]; omega⟩
+
+/-! ### the linearization -/
+
+theorem linOfBlocks_length (cs : List Tree) : ∀ (bs : List (List Nat)) (cnt : List Nat),
+    (linOfBlocks cs cnt bs).length = bs.length
+  | [], _ => rfl
+  | b :: bs, cnt => by simp [linOfBlocks, linOfBlocks_length cs bs]
+
+/-! ### colour segments: maximal runs of tokens covered by the same child -/
+
+/-- split into maximal runs of equal colour -/
+def cseg (col : Nat → Nat) : List Nat → List (List Nat)
+  | [] => []
+  | [a] => [[a]]
+  | a :: b :: rest =>
+    match cseg col (b :: rest) with
+    | [] => [[a]]
+    | s :: ss => if col a = col b then (a :: s) :: ss else [a] :: s :: ss
+
+theorem cseg_cons (col : Nat → Nat) : ∀ (a : Nat) (l : List Nat), ∃ s ss, cseg col (a :: l) = (a :: s) :: ss
+  | a, [] => ⟨[], [], rfl⟩
+  | a, b :: rest => by
+    obtain ⟨s, ss, h⟩ := cseg_cons col b rest
+    simp only [cseg, h]
+    split
+    · exact ⟨_, _, rfl⟩
+    · exact ⟨[], _, rfl⟩
+
+theorem cseg_step (col : Nat → Nat) (a b : Nat) (rest s : List Nat) (ss : List (List Nat))
+    (h : cseg col (b :: rest) = s :: ss) :
+    cseg col (a :: b :: rest) = if col a = col b then (a :: s) :: ss else [a] :: s :: ss := by
+  simp only [cseg, h]
+
+theorem cseg_flatten (col : Nat → Nat) : ∀ l : List Nat, (cseg col l).flatten = l
+  | [] => rfl
+  | [a] => rfl
+  | a :: b :: rest => by
+    have ih := cseg_flatten col (b :: rest)
+    obtain ⟨s, ss, h⟩ := cseg_cons col b rest
+    rw [cseg_step col a b rest _ _ h]
+    rw [h] at ih
+    split
+    · simp only [List.flatten_cons, List.cons_append] at ih ⊢
+      rw [ih]
+    · simp only [List.flatten_cons] at ih ⊢
+      rw [ih]; rfl
+
+/-- colour of a segment = colour of its first token -/
+def colh (col : Nat → Nat) (s : List Nat) : Nat := col (s.headD 0)
+
+theorem collapseAdj_map (col : Nat → Nat) : ∀ l : List Nat,
+    collapseAdj (l.map col) = (cseg col l).map (colh col)
+  | [] => rfl
+  | [a] => rfl
+  | a :: b :: rest => by
+    have ih := collapseAdj_map col (b :: rest)
+    obtain ⟨s, ss, h⟩ := cseg_cons col b rest
+    rw [cseg_step col a b rest _ _ h]
+    rw [h] at ih
+    simp only [List.map_cons, collapseAdj] at ih ⊢
+    split
+    · rename_i hab
+      rw [ih]
+      simp [colh, hab]
+    · rename_i hab
+      rw [ih]
+      simp [colh]
+
+/-- all colour segments of all blocks, in order -/
+def segs (col : Nat → Nat) (Y : List Nat) : List (List Nat) := (blocksOf Y).flatMap (cseg col)
+
+theorem segs_cons (col : Nat → Nat) (a : Nat) (l : List Nat) : ∃ s ss, segs col (a :: l) = (a :: s) :: ss := by
+  obtain ⟨blk, blks, h⟩ := TT.Props.C16.blocksOf_cons a l
+  obtain ⟨s, ss, h'⟩ := cseg_cons col a blk
+  exact ⟨s, ss ++ blks.flatMap (cseg col), by simp [segs, h, h']⟩
+
+theorem segs_step (col : Nat → Nat) (a b : Nat) (rest s : List Nat) (ss : List (List Nat))
+    (h : segs col (b :: rest) = s :: ss) :
+    segs col (a :: b :: rest) = if a + 1 < b ∨ col a ≠ col b then [a] :: s :: ss else (a :: s) :: ss := by
+  obtain ⟨blk, blks, hb⟩ := TT.Props.C16.blocksOf_cons b rest
+  obtain ⟨s', ss', hc⟩ := cseg_cons col b blk
+  have hs : s = b :: s' ∧ ss = ss' ++ blks.flatMap (cseg col) := by
+    simp only [segs, hb, List.flatMap_cons, hc, List.cons_append, List.cons.injEq] at h
+    exact ⟨h.1.symm, h.2.symm⟩
+  obtain ⟨rfl, rfl⟩ := hs
+  unfold segs
+  rw [TT.Props.C16.blocksOf_step a b rest _ _ hb]
+  by_cases hgap : a + 1 < b
+  · simp [hgap, hc, cseg]
+  · rw [if_neg hgap, List.flatMap_cons, cseg_step col a b blk _ _ hc]
+    by_cases hab : col a = col b
+    · simp [hgap, hab]
+    · simp [hgap, hab]
+
+theorem blocksOf_cons_gap (a : Nat) (L : List Nat) (h : ∀ c ∈ L.head?, a + 1 < c) :
+    blocksOf (a :: L) = [a] :: blocksOf L := by
+  cases L with
+  | nil => rfl
+  | cons c L' =>
+    obtain ⟨blk, blks, hb⟩ := TT.Props.C16.blocksOf_cons c L'
+    rw [TT.Props.C16.blocksOf_step a c L' _ _ hb, if_pos (h c (by simp)), hb]
+
+/-- the segments of one colour are exactly the blocks of the tokens of that colour -/
+theorem segs_filter (col : Nat → Nat) (i : Nat) : ∀ Y : List Nat, Y.Pairwise (· < ·) →
+    (segs col Y).filter (fun s => colh col s == i) = blocksOf (Y.filter fun x => col x == i)
+  | [], _ => rfl
+  | [a], _ => by
+    by_cases h : col a = i <;> simp [segs, blocksOf, cseg, colh, h]
+  | a :: b :: rest, hs => by
+    have hs' := List.pairwise_cons.1 hs
+    have ih := segs_filter col i (b :: rest) hs'.2
+    have hab : a < b := hs'.1 b List.mem_cons_self
+    obtain ⟨s', ss, hsg⟩ := segs_cons col b rest
+    rw [segs_step col a b rest _ _ hsg]
+    rw [hsg] at ih
+    have hcs : colh col (b :: s') = col b := rfl
+    by_cases hai : col a = i
+    · -- `a` has the colour
+      have hfa : (a :: b :: rest).filter (fun x => col x == i) = a :: (b :: rest).filter (fun x => col x == i) := by
+        simp [hai]
+      rw [hfa]
+      by_cases hbrk : a + 1 < b ∨ col a ≠ col b
+      · rw [if_pos hbrk]
+        have h1 : colh col [a] = i := hai
+        rw [List.filter_cons_of_pos (by simp [h1]), ih]
+        refine (blocksOf_cons_gap a _ ?_).symm
+        intro c hc
+        have hcm : c ∈ (b :: rest).filter (fun x => col x == i) := List.mem_of_mem_head? hc
+        obtain ⟨hcm, hci⟩ := List.mem_filter.1 hcm
+        have hci' : col c = i := by simpa using hci
+        rcases List.mem_cons.1 hcm with hcb | hcr
+        · rcases hbrk with h | h
+          · omega
+          · exact absurd (hai.trans (hcb ▸ hci').symm) h
+        · have := (List.pairwise_cons.1 hs'.2).1 c hcr
+          omega
+      · rw [if_neg hbrk]
+        have hbrk' : ¬ a + 1 < b ∧ col a = col b := by
+          constructor
+          · exact fun h => hbrk (Or.inl h)
+          · exact Classical.byContradiction fun h => hbrk (Or.inr h)
+        have hbi : col b = i := hbrk'.2 ▸ hai
+        have h1 : colh col (a :: b :: s') = i := hai
+        rw [List.filter_cons_of_pos (by simp [h1])]
+        rw [List.filter_cons_of_pos (by simp [hcs, hbi])] at ih
+        have hfb : (b :: rest).filter (fun x => col x == i) = b :: rest.filter (fun x => col x == i) := by
+          simp [hbi]
+        rw [hfb] at ih ⊢
+        rw [TT.Props.C16.blocksOf_step a b _ _ _ ih.symm, if_neg hbrk'.1]
+    · -- `a` has another colour
+      have hfa : (a :: b :: rest).filter (fun x => col x == i) = (b :: rest).filter (fun x => col x == i) := by
+        simp [hai]
+      rw [hfa]
+      by_cases hbrk : a + 1 < b ∨ col a ≠ col b
+      · rw [if_pos hbrk]
+        have h1 : ¬ colh col [a] = i := hai
+        rw [List.filter_cons_of_neg (by simp [h1]), ih]
+      · rw [if_neg hbrk]
+        have hab' : col a = col b := Classical.byContradiction fun h => hbrk (Or.inr h)
+        have h1 : ¬ colh col (a :: b :: s') = i := hai
+        have h2 : ¬ col b = i := hab' ▸ hai
+        rw [List.filter_cons_of_neg (by simp [h1])]
+        rw [List.filter_cons_of_neg (by simp [hcs, h2])] at ih
+        exact ih
+
+/-! ### numbering the variables -/
+
+theorem numberArgs_cons (cnt : List Nat) (p : Nat) (ps : List Nat) :
+    numberArgs cnt (p :: ps) =
+      (((p : Int), cnt[p]?.getD 0) :: (numberArgs (cnt.set p (cnt[p]?.getD 0 + 1)) ps).1,
+        (numberArgs (cnt.set p (cnt[p]?.getD 0 + 1)) ps).2) := by
+  simp [numberArgs]
+
+theorem linOfBlocks_cons (cs : List Tree) (cnt : List Nat) (b : List Nat) (bs : List (List Nat)) :
+    linOfBlocks cs cnt (b :: bs) =
+      (numberArgs cnt (collapseAdj (b.map (coveringChild cs)))).1 ::
+        linOfBlocks cs (numberArgs cnt (collapseAdj (b.map (coveringChild cs)))).2 bs := by
+  simp [linOfBlocks]
+
+theorem numberArgs_fst_map : ∀ (ps cnt : List Nat),
+    (numberArgs cnt ps).1.map (·.1) = ps.map fun (p : Nat) => (p : Int)
+  | [], _ => rfl
+  | p :: ps, cnt => by simp [numberArgs_cons, numberArgs_fst_map ps]
+
+theorem numberArgs_append : ∀ (ps qs cnt : List Nat),
+    numberArgs cnt (ps ++ qs) =
+      ((numberArgs cnt ps).1 ++ (numberArgs (numberArgs cnt ps).2 qs).1,
+        (numberArgs (numberArgs cnt ps).2 qs).2)
+  | [], _, _ => by simp [numberArgs]
+  | p :: ps, qs, cnt => by
+    simp only [List.cons_append, numberArgs_cons, numberArgs_append ps qs]
+
+theorem linOfBlocks_flatten (cs : List Tree) : ∀ (bs : List (List Nat)) (cnt : List Nat),
+    (linOfBlocks cs cnt bs).flatten =
+      (numberArgs cnt (bs.flatMap fun b => collapseAdj (b.map (coveringChild cs)))).1
+  | [], _ => by simp [linOfBlocks, numberArgs]
+  | b :: bs, cnt => by
+    simp only [linOfBlocks_cons, List.flatten_cons, List.flatMap_cons, numberArgs_append,
+      linOfBlocks_flatten cs bs]
+
+/-- the variables of RHS element `i` are numbered consecutively -/
+theorem numberArgs_filter (i : Nat) : ∀ (ps cnt : List Nat), i < cnt.length →
+    ((numberArgs cnt ps).1.filter fun x => x.1 == (i : Int)).map (·.2) =
+      List.range' (cnt[i]?.getD 0) (ps.count i)
+  | [], _, _ => by simp [numberArgs]
+  | p :: ps, cnt, hi => by
+    rw [numberArgs_cons]
+    have ih := numberArgs_filter i ps (cnt.set p (cnt[p]?.getD 0 + 1)) (by simpa using hi)
+    by_cases hp : p = i
+    · subst hp
+      rw [List.filter_cons_of_pos (by simp), List.map_cons, ih]
+      simp [List.getElem?_set_self hi, List.range'_succ]
+    · have hp' : ¬ ((p : Int) = (i : Int)) := by omega
+      rw [List.filter_cons_of_neg (by simpa using hp'), ih]
+      rw [List.getElem?_set_ne hp, List.count_cons_of_ne hp]
+
+theorem mem_collapseAdj : ∀ (l : List Nat) (x : Nat), x ∈ collapseAdj l → x ∈ l
+  | [], _, h => by simp [collapseAdj] at h
+  | [a], _, h => by simpa [collapseAdj] using h
+  | a :: b :: r, x, h => by
+    simp only [collapseAdj] at h
+    split at h
+    · exact List.mem_cons_of_mem _ (mem_collapseAdj (b :: r) x h)
+    · rcases List.mem_cons.1 h with rfl | h
+      · exact List.mem_cons_self
+      · exact List.mem_cons_of_mem _ (mem_collapseAdj (b :: r) x h)
+
+theorem collapseAdj_cons : ∀ (a : Nat) (l : List Nat), ∃ r, collapseAdj (a :: l) = a :: r
+  | a, [] => ⟨[], rfl⟩
+  | a, b :: l => by
+    simp only [collapseAdj]
+    split
+    · rename_i h; subst h; exact collapseAdj_cons a l
+    · exact ⟨_, rfl⟩
+
+/-- no two adjacent equal entries -/
+def noAdj : List Nat → Bool
+  | a :: b :: r => a != b && noAdj (b :: r)
+  | _ => true
+
+theorem collapseAdj_noAdj : ∀ l : List Nat, noAdj (collapseAdj l) = true
+  | [] => rfl
+  | [a] => rfl
+  | a :: b :: r => by
+    have ih := collapseAdj_noAdj (b :: r)
+    simp only [collapseAdj]
+    split
+    · exact ih
+    · rename_i hab
+      obtain ⟨r', hr⟩ := collapseAdj_cons b r
+      rw [hr] at ih ⊢
+      simp [noAdj, hab, ih]
+
+theorem numberArgs_adj : ∀ (ps cnt : List Nat), noAdj ps = true →
+    ((numberArgs cnt ps).1.zip ((numberArgs cnt ps).1.drop 1)).all (fun (a, b) => a.1 != b.1) = true
+  | [], _, _ => by simp [numberArgs]
+  | [p], _, _ => by simp [numberArgs]
+  | p :: q :: r, cnt, h => by
+    simp only [noAdj, Bool.and_eq_true, bne_iff_ne, ne_eq] at h
+    have ih := numberArgs_adj (q :: r) (cnt.set p (cnt[p]?.getD 0 + 1)) h.2
+    rw [numberArgs_cons]
+    rw [numberArgs_cons] at ih ⊢
+    simp only [List.drop_succ_cons, List.drop_zero, List.zip_cons_cons, List.all_cons, Bool.and_eq_true,
+      bne_iff_ne, ne_eq] at ih ⊢
+    refine ⟨?_, ih⟩
+    have := h.1
+    omega
+
+theorem mem_linOfBlocks (cs : List Tree) : ∀ (bs : List (List Nat)) (cnt : List Nat),
+    ∀ arg ∈ linOfBlocks cs cnt bs, ∃ cnt' b, b ∈ bs ∧
+      arg = (numberArgs cnt' (collapseAdj (b.map (coveringChild cs)))).1
+  | [], _, arg, h => by simp [linOfBlocks] at h
+  | b :: bs, cnt, arg, h => by
+    rw [linOfBlocks_cons] at h
+    rcases List.mem_cons.1 h with rfl | h
+    · exact ⟨cnt, b, List.mem_cons_self, rfl⟩
+    · obtain ⟨cnt', b', hb', he⟩ := mem_linOfBlocks cs bs _ arg h
+      exact ⟨cnt', b', List.mem_cons_of_mem _ hb', he⟩
+
+/-! ### the covering child -/
+
+theorem coveringChild_spec (cs : List Tree) (n : Nat) (h : ∃ c ∈ cs, n ∈ c.leafNums) :
+    ∃ c, cs[coveringChild cs n]? = some c ∧ n ∈ c.leafNums := by
+  obtain ⟨c0, hc0, hn0⟩ := h
+  obtain ⟨i0, hi0⟩ := List.getElem?_of_mem hc0
+  have hne : (cs.zipIdx.filter fun (c, _) => c.leafNums.contains n) ≠ [] := by
+    refine List.ne_nil_of_mem (a := (c0, i0)) (List.mem_filter.2 ⟨?_, by simpa using hn0⟩)
+    exact List.mem_zipIdx_iff_getElem?.2 hi0
+  have hlast := List.getLast_mem hne
+  obtain ⟨hz, hcont⟩ := List.mem_filter.1 hlast
+  unfold coveringChild
+  rw [List.getLast?_eq_some_getLast hne]
+  generalize (cs.zipIdx.filter fun (c, _) => c.leafNums.contains n).getLast hne = x at hz hcont
+  obtain ⟨c, j⟩ := x
+  exact ⟨c, by simpa using List.mem_zipIdx_iff_getElem?.1 hz, by simpa using hcont⟩
+
+theorem flatMap_nodup_index {α β} (f : α → List β) : ∀ (l : List α), (l.flatMap f).Nodup →
+    ∀ (i j : Nat) (a b : α) (x : β), l[i]? = some a → l[j]? = some b → x ∈ f a → x ∈ f b → i = j
+  | [], _, i, _, _, _, _, hi, _, _, _ => by simp at hi
+  | y :: l, hn, i, j, a, b, x, hi, hj, ha, hb => by
+    simp only [List.flatMap_cons, List.nodup_append] at hn
+    obtain ⟨_, hn2, hdis⟩ := hn
+    cases i with
+    | zero =>
+      cases j with
+      | zero => rfl
+      | succ j =>
+        simp only [List.getElem?_cons_zero, Option.some.injEq, List.getElem?_cons_succ] at hi hj
+        subst hi
+        exact absurd rfl (hdis x ha x (List.mem_flatMap.2 ⟨b, List.mem_of_getElem? hj, hb⟩))
+    | succ i =>
+      cases j with
+      | zero =>
+        simp only [List.getElem?_cons_zero, Option.some.injEq, List.getElem?_cons_succ] at hi hj
+        subst hj
+        exact absurd rfl (hdis x hb x (List.mem_flatMap.2 ⟨a, List.mem_of_getElem? hi, ha⟩))
+      | succ j =>
+        simp only [List.getElem?_cons_succ] at hi hj
+        rw [flatMap_nodup_index f l hn2 i j a b x hi hj ha hb]
+
+/-- with pairwise disjoint children, the covering child of a token is the child containing it -/
+theorem coveringChild_eq (cs : List Tree) (hnd : (cs.flatMap leafNums).Nodup) (i : Nat) (c : Tree)
+    (hc : cs[i]? = some c) (n : Nat) (hn : n ∈ c.leafNums) : coveringChild cs n = i := by
+  obtain ⟨c', hc', hn'⟩ := coveringChild_spec cs n ⟨c, List.mem_of_getElem? hc, hn⟩
+  exact flatMap_nodup_index leafNums cs hnd _ _ c' c n hc' hc hn' hn
+
+/-- the tokens of the node covered by child `i` are the tokens of child `i` -/
+theorem filter_coveringChild (cs : List Tree) (hnd : (cs.flatMap leafNums).Nodup) (Y : List Nat)
+    (hY : Y.Pairwise (· < ·)) (hmem : ∀ n, n ∈ Y ↔ ∃ c ∈ cs, n ∈ c.leafNums) (i : Nat) (c : Tree)
+    (hc : cs[i]? = some c) : (Y.filter fun x => coveringChild cs x == i) = c.yield := by
+  have hcn : c.leafNums.Nodup :=
+    (List.sublist_flatten_of_mem (List.mem_map_of_mem (f := leafNums) (List.mem_of_getElem? hc))).nodup hnd
+  have hcy : (yield c).Pairwise (· < ·) := TT.Props.C16.yield_strictInc c hcn
+  have hfy : (Y.filter fun x => coveringChild cs x == i).Pairwise (· < ·) := hY.filter _
+  refine List.Perm.eq_of_pairwise (le := (· < ·)) ?_ hfy hcy ?_
+  · intro a b _ _ h1 h2; omega
+  · refine (List.perm_ext_iff_of_nodup (hfy.imp (fun h => Nat.ne_of_lt h)) (hcy.imp (fun h => Nat.ne_of_lt h))).2 ?_
+    intro n
+    rw [List.mem_filter, TT.Lemmas.WF.mem_yield, hmem]
+    constructor
+    · rintro ⟨hex, hcov⟩
+      obtain ⟨c', hc', hn'⟩ := coveringChild_spec cs n hex
+      rw [show coveringChild cs n = i by simpa using hcov, hc] at hc'
+      cases hc'
+      exact hn'
+    · intro hn
+      exact ⟨⟨c, List.mem_of_getElem? hc, hn⟩, by simpa using coveringChild_eq cs hnd i c hc n hn⟩
 
 end TT.Lemmas.Extract
